@@ -32,7 +32,7 @@ RULE = ("cases = (dataset, sub-query conditions c1/c2, wrapper entity|set_of, co
         "reference must return the same row set. Non-trivial = both sub-conditions are non-constant on the data and the "
         "composed result differs from each component's result (condition position) / the sub-query restricts the operand "
         "(other positions); distinct = canonical JSON.")
-BUDGET = {"quick": (8, 400), "thorough": (16, 3500)}
+BUDGET = {"quick": (8, 650), "thorough": (16, 3500)}
 ASSUMPTIONS = ["a `the` sub-query used inside another query has exactly one solution",
                "only == against a sub-query operand is asserted (the existential reading of other operators is not stated)"]
 
@@ -91,7 +91,7 @@ def _case(draw, tier):
         form = draw(st.sampled_from(["nary", "binl", "binr"]))
         case["cond"] = [conn, form, parts]
         case["split_top"] = conn == "and" and draw(st.booleans())
-        left_or_story = nv == 2 and chance(draw, 1, 6)
+        left_or_story = nv == 2 and chance(draw, 1, 3)
         if left_or_story:
             # a sub-query with a disjunction of its own as the LEFT operand of an outer disjunction whose right operand is
             # about the variable the sub-query does not select (and the query does not select it either)
